@@ -53,6 +53,15 @@ record was written under -/
 theorem genCfg_removes : Removes genCfg :=
   ⟨by decide, by decide, by decide, by decide, by decide, by decide, by decide, by decide, by decide, by decide, by decide⟩
 
+/-- order of the steps inside `IBCMiddleware.OnAcknowledgementPacket` / `OnTimeoutPacket` (regenerated): the wrapped ICS-20
+application FIRST (it hands the coins back), then the keeper hook (it converts what was handed back), every error
+returned to IBC core.  The model's `refundState` (`refundApp`, then `refundHook` on the resulting balances) and
+`settleBy` are written for exactly this order: with the hook in front it would look for a voucher the sender does not hold
+yet. -/
+theorem genCfg_middleware_steps :
+    FxVerif.Gen.C19.ackMiddlewareSteps = ["app:returned", "decode-ack:returned", "decode-data:returned", "hook:returned"] ∧
+    FxVerif.Gen.C19.timeoutMiddlewareSteps = ["app:returned", "decode-data:returned", "hook:returned"] := by decide
+
 /-! ## 1. inbound transfer: exact credit in ERC-20 form, or error acknowledgement and nothing changes -/
 
 /-- For every state and every inbound packet addressed to a hex account, on any channel (whatever the counterparty calls
@@ -747,7 +756,7 @@ Theorems of this file:
   success_ack_keeps_relation_general, crossed_channels_wrong_end_witness, returning_native_coin_guard_witness,
   settled_is_final, relation_key_text, relation_key_injective, send_records_own_key, erc20_supply_backed,
   ack_decision_agrees, app_ack_decision, wire_ack_settles_as_classified, wire_ack_undecodable_changes_nothing,
-  wire_error_ack_refunds_erc20, wire_success_ack_only_removes_record, empty_error_text_witness
+  wire_error_ack_refunds_erc20, wire_success_ack_only_removes_record, empty_error_text_witness, genCfg_middleware_steps
 -/
 
 end FxVerif.Props.C19
